@@ -373,13 +373,23 @@ class Real:
     def names_ok_for_strings(self, cfg):
         return all(k and not re.search(r"[=,{}\s]", k) for k in cfg["al"])
 
-    def create(self, inputs, cfg, selector, uid_mode, sid_mode, fname="f", via_strings=False, use_get_abi=True):
-        """run mk_calldata; returns ("ok", items, dyn, length) or ("err", kind)"""
+    def create(self, inputs, cfg, selector, uid_mode, sid_mode, fname="f", via_strings=False, use_get_abi=True,
+               sig=None, before=(), after=()):
+        """run mk_calldata; returns ("ok", items, dyn, length) or ("err", kind).
+        `sig`: the canonical signature computed by the harness (what __main__ takes from methodIdentifiers); the ABI
+        item is then found through the real get_abi / str_abi map.  `before`/`after`: input lists of further overloads
+        of the same function name listed before / after it in the contract ABI."""
         hc = self.hc
         item = {"type": "function", "name": fname, "inputs": inputs}
         try:
-            sig = hc.str_abi(item)
-            abi = hc.get_abi({"abi": [item]}) if use_get_abi else {sig: item}
+            if sig is None:
+                sig = hc.str_abi(item)
+                abi = hc.get_abi({"abi": [item]}) if use_get_abi else {sig: item}
+            else:
+                lst = ([{"type": "function", "name": fname, "inputs": i} for i in before] + [item]
+                       + [{"type": "function", "name": fname, "inputs": i} for i in after]
+                       + [{"type": "event", "name": fname, "inputs": []}])
+                abi = hc.get_abi({"abi": lst})
         except Exception as e:  # malformed inputs (missing components …)
             sig = fname + "()"
             abi = {sig: item}
@@ -554,18 +564,21 @@ def leaves_estimate(top, cfg):
 
 
 class Case:
-    __slots__ = ("inputs_t", "cfg", "uid", "sid", "selector", "via_strings", "stream", "real", "vals", "top")
+    __slots__ = ("inputs_t", "cfg", "uid", "sid", "selector", "via_strings", "stream", "real", "vals", "top", "before", "after")
 
 
-def mk_case(top, cfg, uid, sid, selector, stream, via_strings=False):
+def mk_case(top, cfg, uid, sid, selector, stream, via_strings=False, before=(), after=()):
+    """before/after: type trees (tuples of inputs) of overloads of the same name listed before/after in the ABI"""
     c = Case()
     c.top, c.cfg, c.uid, c.sid, c.selector, c.stream, c.via_strings = top, cfg, uid, sid, selector, stream, via_strings
+    c.before, c.after = list(before), list(after)
     c.vals = []
     return c
 
 
 def case_json(c):
-    return {"top": c.top, "cfg": c.cfg, "uid": c.uid, "sid": c.sid, "selector": c.selector, "via_strings": c.via_strings}
+    return {"top": c.top, "cfg": c.cfg, "uid": c.uid, "sid": c.sid, "selector": c.selector, "via_strings": c.via_strings,
+            "before": c.before, "after": c.after}
 
 
 def top_from_json(t):
@@ -610,7 +623,10 @@ def run_cases(ctx, real, cases):
     reqs, plan = [], []
     for c in cases:
         inputs = [abi_item(n, t) for n, t in c.top[1]]
-        c.real = real.create(inputs, c.cfg, c.selector, c.uid, c.sid, via_strings=c.via_strings)
+        # looked up by the canonical signature (harness' own rendering) through the real get_abi / str_abi map
+        c.real = real.create(inputs, c.cfg, c.selector, c.uid, c.sid, via_strings=c.via_strings, sig="f" + sig_of(c.top),
+                             before=[[abi_item(n, t) for n, t in o[1]] for o in c.before],
+                             after=[[abi_item(n, t) for n, t in o[1]] for o in c.after])
         plan.append(("create", c, None))
         reqs.append(lean_create_req(c))
         if c.real[0] != "ok":
@@ -1109,6 +1125,55 @@ def check_multi_registration(ctx, real, g):
 
 # ----------------------------------------------------------------------------------------------------------------
 
+def wrap_dims(t, dims):
+    """dims innermost first: None = [], k = [k]"""
+    for d in dims:
+        t = ("darr", t) if d is None else ("farr", t, d)
+    return t
+
+
+def struct_dim_cases(ctx, g):
+    r = ctx.rng
+    out = []
+    structs = [("tuple", [("p", ("uint", 256)), ("q", "bool")]),                      # static struct
+               ("tuple", [("p", "bytes"), ("q", ("uint", 8))]),                          # dynamic struct
+               ("tuple", [("p", ("darr", ("uint", 256)))])]
+    dim_sets = [list(d) for n in (2, 3) for d in itertools.product([None, 1, 2, 3], repeat=n)]
+    if ctx.tier == "quick" and not ctx.search:
+        dim_sets = [d for d in dim_sets if len(d) == 2] + r.sample([d for d in dim_sets if len(d) == 3], 16)
+    cfgs = [{"al": {}, "da": [1, 2], "db": [0, 33]}, {"al": {"x": [1], "x[0]": [2, 0]}, "da": [0, 1], "db": [32]}]
+    for dims in dim_sets:
+        for si, st in enumerate(structs):
+            if ctx.tier == "quick" and not ctx.search and len(dims) == 3 and si != (len(out) % 3):
+                continue
+            t = wrap_dims(st, dims)
+            cfg = r.choice(cfgs)
+            # (a) top-level parameter, (b) nested field of another struct, (c) next to other parameters
+            tops = [("tuple", [("x", t)]),
+                    ("tuple", [("k", ("uint", 8)), ("o", ("tuple", [("x", t), ("z", "address")]))]),
+                    ("tuple", [("a", "bytes"), ("x", t), ("b", ("farr", ("uint", 256), 2))])]
+            for top in (tops if len(dims) == 2 else [r.choice(tops)]):
+                if leaves_estimate(top, cfg)[0] <= 300:
+                    out.append(mk_case(top, cfg, ["ctr"], ["none"], "%08x" % r.getrandbits(32), "struct-dims"))
+            # overload sets differing only in inner dimensions: S[outer], S[d1][outer], S[d2][outer] (+ different order)
+            outer = dims[-1]
+            fam = [wrap_dims(st, [outer]), wrap_dims(st, dims), wrap_dims(st, [r.choice([None, 2, 4])] + [outer])]
+            fam_tops = []
+            for f in fam:
+                top = ("tuple", [("x", f)])
+                if sig_of(top) not in [sig_of(x) for x in fam_tops]:
+                    fam_tops.append(top)
+            order = list(fam_tops)
+            r.shuffle(order)
+            if r.random() < 0.5:
+                order = list(fam_tops)   # truncated signature listed first
+            for i, top in enumerate(order):
+                if leaves_estimate(top, cfg)[0] <= 300:
+                    out.append(mk_case(top, cfg, ["ctr"], ["ctr", 1], "%08x" % r.getrandbits(32), "struct-dims-overloads",
+                                       before=order[:i], after=order[i + 1:]))
+    return out
+
+
 def corpus_cases():
     d = VERIF / "corpus" / ID
     out = []
@@ -1116,7 +1181,9 @@ def corpus_cases():
         for p in sorted(d.glob("*.json")):
             j = json.loads(p.read_text())
             out.append(mk_case(top_from_json(j["top"]), j["cfg"], j.get("uid", ["ctr"]), j.get("sid", ["none"]),
-                               j.get("selector", "a9059cbb"), "corpus", j.get("via_strings", False)))
+                               j.get("selector", "a9059cbb"), "corpus", j.get("via_strings", False),
+                               before=[top_from_json(o) for o in j.get("before", [])],
+                               after=[top_from_json(o) for o in j.get("after", [])]))
     return out
 
 
@@ -1145,6 +1212,9 @@ def correspond(ctx):
             top = ("tuple", [("x", t)])
             if leaves_estimate(top, cfg)[0] <= 400:
                 cases.append(mk_case(top, cfg, ["ctr"], ["none"], "12345678", "small-scope"))
+    # structs under 2-3 array dimensions (all static/dynamic mixes), top level and as a nested field, looked up by the
+    # canonical signature; overload sets whose members differ only in the inner dimensions
+    cases += struct_dim_cases(ctx, g)
     # random trees
     n = ctx.scale(800, 20000)
     made = 0
@@ -1238,7 +1308,8 @@ def replay(ctx, data) -> bool:
     kind = rp.get("kind")
     before = len(ctx.violations)
     if kind in ("create", "spec", "zero-fixed"):
-        c = mk_case(top_from_json(rp["top"]), rp["cfg"], rp["uid"], rp["sid"], rp["selector"], "replay", rp.get("via_strings", False))
+        c = mk_case(top_from_json(rp["top"]), rp["cfg"], rp["uid"], rp["sid"], rp["selector"], "replay", rp.get("via_strings", False),
+                    before=[top_from_json(o) for o in rp.get("before", [])], after=[top_from_json(o) for o in rp.get("after", [])])
         if kind == "zero-fixed":
             check_zero_fixed(ctx, real)
         else:
